@@ -3,7 +3,7 @@
 // SPDX-License-Identifier: Apache-2.0 OR GPL-3.0-or-later
 
 use crate::frame::{ConnectPayload, Frame, Payload, PushPayload};
-use crate::loom::{Arc, AtomicBool, AtomicU32, AtomicWaker, Mutex, RwLock};
+use crate::loom::{Arc, AtomicBool, AtomicU32, AtomicWaker, Mutex, Ordering, RwLock};
 use crate::timing::{OptionalDuration, TimestampProvider};
 use crate::ws::{Message, WebSocket};
 use crate::{BindRequest, Datagram, Error, EstablishedStreamData, FlowSlot, MuxStream, Result};
@@ -624,6 +624,7 @@ impl<S: WebSocket, T: TimestampProvider> Task<S, T> {
             finish_sent: finish_sent.clone(),               // cheap
             psh_send_remaining: psh_send_remaining.clone(), // cheap
             writer_waker: writer_waker.clone(),             // cheap
+            push_received: AtomicBool::new(false),
         };
         // Save the TX end of the stream so we can write to it when subsequent frames arrive
         let stream = MuxStream {
@@ -738,16 +739,27 @@ impl<S: WebSocket, T: TimestampProvider> Task<S, T> {
         match removed {
             FlowSlot::Established(mut stream_data) => {
                 let finish_sent = stream_data.disallow_write();
-                if !finish_sent && !inhibit_rst {
-                    // If the user did not call `poll_shutdown`, we send a `Reset` frame
-                    debug!("stream dropped without `poll_shutdown`");
-                    self.tx_msg_tx.send(Frame::new_reset(flow_id).into()).ok();
-                    // Ignore the error because the other end will EOF everything anyway
-                }
                 // No need to send an empty `Bytes`. Dropping `sender`
                 // already makes sure the user receives `EOF`.
-                if let Some(sender) = stream_data.disallow_read() {
-                    debug_assert_eq!(sender.strong_count(), 1);
+                let peer_finished = match stream_data.disallow_read() {
+                    Some(sender) => {
+                        debug_assert_eq!(sender.strong_count(), 1);
+                        false
+                    }
+                    // The peer has already sent `Finish`
+                    None => true,
+                };
+                // A peer that has sent us data and has not finished may be waiting
+                // (now or after its frames in flight) for `Acknowledge` frames
+                // that will never come.
+                let peer_may_wait =
+                    !peer_finished && stream_data.push_received.load(Ordering::Relaxed);
+                if (!finish_sent || peer_may_wait) && !inhibit_rst {
+                    // If the user did not call `poll_shutdown`, or if the peer has to
+                    // be told that nobody is reading any more, we send a `Reset` frame
+                    debug!("stream dropped before it was closed in both directions");
+                    self.tx_msg_tx.send(Frame::new_reset(flow_id).into()).ok();
+                    // Ignore the error because the other end will EOF everything anyway
                 }
                 // Ignore the error if the user already dropped the stream
                 debug!("freed connection");
